@@ -350,13 +350,20 @@ func ttmlOffsetDuration(integer, fraction string, timebase time.Duration) (time.
 // duration returns the input TTML Duration's time.Duration
 func (d TTMLInDuration) duration() (o time.Duration) {
 	if d.ticks > 0 && d.tickrate > 0 {
-		return time.Duration(float64(d.ticks) * 1e9 / float64(d.tickrate))
+		return ttmlUnitsDuration(d.ticks, d.tickrate)
 	}
 	o = d.d
 	if d.frames > 0 && d.framerate > 0 {
-		o += time.Duration(float64(d.frames) / float64(d.framerate) * float64(time.Second.Nanoseconds()))
+		o += ttmlUnitsDuration(d.frames, d.framerate)
 	}
 	return
+}
+
+// ttmlUnitsDuration returns the duration of n units (frames, ticks) at the given rate per second, truncated to
+// the nanosecond. It is computed in integer arithmetic, whole seconds first: float64 gives 8.039999999s for
+// 201 frames at 25 frames/s and loses a nanosecond on large tick counts
+func ttmlUnitsDuration(n, rate int) time.Duration {
+	return time.Duration(n/rate)*time.Second + time.Duration(n%rate)*time.Second/time.Duration(rate)
 }
 
 // ReadFromTTML parses a .ttml content
